@@ -115,7 +115,7 @@ Proof.
           apply fset_ok; [exact Fs|]. apply entry_ok_intro; [exact Kne|exact Se|].
           apply named_scope. apply (Hov sf sf'); [exact Kn|apply named_scope in Sn; exact Sn|exact J].
         * (* self value is a scope_extract_list *)
-          destruct ov as [| |s|nn|l'|l'|oe'|o' l']; try discriminate.
+          destruct ov as [| |s|nn|l'|l'|oe'|o' l']; try discriminate; [apply (IHr self Fs H)|].
           apply (IHr (fset key (VScopeList o (drop_leading_none (l ++ filter not_none l'))) self)); [|exact H].
           apply fset_ok; [exact Fs|]. apply entry_named_slist in Se. apply entry_named_slist in Ke.
           apply named_slist in Sn. apply named_slist in Kn.
